@@ -169,7 +169,7 @@ func walkPath(rt *rapid.T, expr string, v *spec.Value, steps *int) (string, *spe
 			i := rapid.IntRange(0, len(v.Items)-1).Draw(rt, "idx")
 			expr, v = fmt.Sprintf("%s[%d]", expr, i), v.Items[i]
 			*steps++
-		case spec.TMap:
+		case spec.TMap, spec.TRoleMap:
 			if len(v.Keys) == 0 {
 				return expr, v, ""
 			}
@@ -232,7 +232,7 @@ func leafCase(data *spec.Data, expr string, v *spec.Value) (dataCase, bool) {
 	case spec.TSlice:
 		cs.Src = "[{{ " + expr + ".len() }}]"
 		cs.Expect, cs.I = "len", int64(len(v.Items))
-	case spec.TMap, spec.TStruct:
+	case spec.TMap, spec.TRoleMap, spec.TStruct:
 		// an object: truthy, and a property that does not exist is an error
 		cs.Src = "[{{ " + expr + " ? 1 : 0 }}]"
 		cs.Expect, cs.I = "int", 1
@@ -329,7 +329,13 @@ func TestC12_FixedShapes(t *testing.T) {
 	// two different struct types whose printed name is the same (declared in two functions)
 	personA := &spec.Value{T: spec.FixedType("PersonA"), Items: []*spec.Value{spec.String("Ann"), spec.IntOf(spec.TInt, 31)}}
 	personB := &spec.Value{T: spec.FixedType("PersonB"), Items: []*spec.Value{spec.IntOf(spec.TInt, 44), spec.String("Bob"), spec.String("bob@x")}}
+	// a map keyed by a defined string type is a string-keyed map
+	roles := spec.RoleMap(spec.T(spec.TInt), []string{"admin", "Guest"}, []*spec.Value{spec.IntOf(spec.TInt, 10), spec.IntOf(spec.TInt, 2)})
+	account := spec.Struct([]string{"Name", "Quota"}, []*spec.Value{spec.String("acc"), roles})
 	shapes := []shape{
+		{"defined-string-key-dot", roles, "d.admin", asInt(10)}, {"defined-string-key-index", roles, `d["Guest"]`, asInt(2)},
+		{"defined-string-key-in-struct", account, "d.quota.admin", asInt(10)}, {"defined-string-key-in-pointer", spec.Ptr(account), `d.Quota["Guest"]`, asInt(2)},
+		{"defined-string-key-missing", roles, "d.nosuch", asErr}, {"defined-string-key-len-of-sibling", account, "d.name", asStr("acc")},
 		{"embedded-nil-pointer-sibling", embNil, "d.label", asStr("lab")}, {"embedded-nil-pointer-itself", embNil, "d.Inner", asNil},
 		{"embedded-nil-pointer-in-slice", spec.Slice(embNil.T, embNil, embSet), "d[1].inner.title", asStr("ti")}, {"embedded-pointer-field", embSet, "d.Inner.n", asInt(2)},
 		{"same-named-type-first", personA, "d.name", asStr("Ann")}, {"same-named-type-first-age", personA, `d["age"]`, asInt(31)},
@@ -457,6 +463,8 @@ func TestC12_Names(t *testing.T) {
 		}
 	}
 	names = append(names, "_", "_a", "_Z", "_0", "__", "a_b_c", "x1y2z3")
+	// names that are words of the language in another letter case are ordinary names
+	names = append(names, "True", "TRUE", "tRue", "False", "FALSE", "Nil", "NIL", "nIl", "In", "IN", "iN", "Loop", "LOOP", "If", "Else", "End", "Each", "For")
 	n := 0
 	run := func(tb harness.TB, name string, enum bool) {
 		if c12Keywords[name] {
@@ -473,7 +481,11 @@ func TestC12_Names(t *testing.T) {
 		}
 		if name[0] >= 'A' && name[0] <= 'Z' {
 			data.Add("st0", spec.Struct([]string{name}, []*spec.Value{iv}))
-			exprs = append(exprs, "st0."+name, "st0."+lowerFirst(name), `st0["`+lowerFirst(name)+`"]`)
+			exprs = append(exprs, "st0."+name)
+			if lf := lowerFirst(name); !c12Keywords[lf] {
+				exprs = append(exprs, "st0."+lf)
+			}
+			exprs = append(exprs, `st0["`+lowerFirst(name)+`"]`)
 		}
 		for _, e := range exprs {
 			cs := dataCase{Data: data, Src: "[{{ " + e + " }}]", Expect: "int", I: val, Note: "name " + name}
